@@ -75,6 +75,10 @@ CHECKS = {
    text="Explicit-state search over histories on the REAL PodGroupReconciler, QueueReconciler and operator DeployableOperands.Deploy over controller-runtime fake clients. Part A: all histories (depth 5 quick / 6 thorough) of pod add / bind / phase change / delete, preemptibility flips of the group (priority class, explicit field) and reconciles, plus a full grid of 1-3 pods over phase x scheduled condition x nodeName x 7 request kinds x 9 preemptibility sources; Part B: 65 (121 thorough) queue forests up to 3 levels with histories of pod-group status changes, add/delete, re-parenting and reconciles in every order incl. parent before child; Part C: all 256 subsets of operator service switches x start states {empty, seeded, foreign objects, deployed(C1)} and C1->C2 changes. Oracle at every fixpoint: pod-group requested/allocated/allocatedNonPreemptible = reference sums over its pods by phase and CURRENT preemptibility; queue status = sums over pod groups and child queues at every level; one more reconcile changes no object; Deploy(C2) after Deploy(C1) equals Deploy(C2) from scratch and a repeated Deploy changes no object.",
    note="Trusted: fake clients, reference sums on resource.Quantity, reduced schemes. Not covered: ConfigReconciler.Reconcile status conditions / SchedulingShard reconciler (need a manager). API writes that leave objects semantically unchanged are counted, not alarmed (the statement is about object contents).",
    technique="explicit-state search over event/reconcile histories of the real controllers with reference-sum and differential fixpoint oracles"),
+ "C05": dict(engine="clustermc", cat="model_checking", ref="§5 C05",
+   text="Explicit-state search on the *progress* grammar. (i) Work conservation: 1-3 nodes, <= 3 (4 thorough) workloads from a menu of whole-GPU / 2-GPU / cpu / single-fraction requests, gangs of 2-3, elastic, half-running gangs, non-preemptible jobs, over 3 queue trees with limits and non-preemptible quotas, configs {binpack, spread} x {consolidation on/off} x {scheduling signatures on/off} x a map seed; after the allocate action every still-pending ready workload is handed to a brute-force packer (all assignments of its missing-to-min pods to nodes over idle capacity recomputed from the world + allocate's binds and nominations, reference limit / quota rules): an assignment existing is a violation. (ii) Displacement: interchangeable single-pod 1-GPU workloads on full nodes, one pending workload, 3 queue trees x 7 victim sets x 5 pending kinds: the pending workload must be bound or nominated within the cycle when a strictly lower-priority preemptible workload of its queue runs, or when it stays within deserved quota and preemptible pods of over-quota queues run.",
+   note="Trusted: the packer models cpu, memory, pod slots, whole GPUs and single-device fractions exactly; gpu-memory, multi-fraction, MIG and topology-constrained jobs are outside this grammar. Terminating and nominated capacity is treated as not idle (conservative).",
+   technique="explicit-state model checking of the implementation with a brute-force reference packer as the work-conservation oracle"),
 }
 
 NOT_APPLICABLE = []
